@@ -8,6 +8,7 @@ SRC=${VP_RUN_REPO:-/repo}
 LANES=${LANES:-3}
 CHECKS=${CHECKS:-"C01 C02 C03 C04 C05 C06 C07 C08 C09 C10 C11 C12 C13 C14 C15 C16 C17 C18 C19 C20"}
 ONLY=${ONLY:-""}   # optional grep -E filter on change names
+MODE=${MODE:-"all"} # "own": per change only the check of its own property
 BASE=/var/tmp/verif-matrix-$$
 trap 'rm -rf $BASE* work/alt-*' EXIT
 names=()
@@ -31,7 +32,21 @@ lane() {
     name=$(basename $d)
     (cd $SCRATCH && git checkout -q -- . && git clean -fdq)
     if ! (cd $SCRATCH && git apply "$OLDPWD/$d/patch.diff" 2>/dev/null); then echo "MATRIX $name - does-not-apply"; continue; fi
-    for id in $CHECKS; do
+    ids="$CHECKS"
+    if [ "$MODE" = "own" ]; then
+      # only the check of the property the change was written against (hand-made patches: the property in their name, the
+      # reverts of fixes: the checks that found the defect)
+      case "$name" in
+        C[0-9][0-9]-*) ids="${name%%-*}";;
+        c[0-9][0-9]-*) ids="C${name:1:2}";;
+        x-c[0-9][0-9]*) ids="C${name:3:2}";;
+        x-rev_166ae28|x-rev_db81e0f|x-rev_dca1326|x-rev_from|x-rev_9736906) ids="C18";;
+        x-rev_ad70464) ids="C10 C03";;
+        x-pathnull) ids="C14 C10 C18";;
+        *) ids="C03 C10 C14 C18";;
+      esac
+    fi
+    for id in $ids; do
       out=$(VERIF_REPO=$SCRATCH VERIF_EVIDENCE_ROOT=$VROOT ./check $id quick 2>&1); rc=$?
       echo "MATRIX $name $id rc=$rc $(echo "$out" | grep -m1 'detail:' | cut -c1-160)"
     done
